@@ -60,6 +60,8 @@ func ChildMain(jobFile, outFile string) {
 			r = Replay(j.Seed, j.Prog, j.Steps)
 		case "restartloop":
 			r = RestartLoop(j.Seed, j.Prog, j.Prog.Cycles)
+		case "failsub":
+			r = FailSubLoop(j.Seed, j.Prog, j.Prog.Cycles)
 		case "window":
 			r = Window(j.Seed, j.Prog, j.Win[0], j.Win[1], j.Win[2], j.Win[3])
 		default:
@@ -72,7 +74,7 @@ func ChildMain(jobFile, outFile string) {
 			}
 			f.Close()
 		}
-		if j.Mode != "restartloop" && len(r.Events) > 0 && len(r.Events) < 4000 {
+		if j.Mode != "restartloop" && j.Mode != "failsub" && len(r.Events) > 0 && len(r.Events) < 4000 {
 			w := j.Prog.Workers
 			if w <= 0 {
 				w = 2
@@ -415,6 +417,9 @@ func Run(c *core.Ctx) {
 	}
 	for i := 0; i < c.Pick(8, 24); i++ {
 		add(Job{Mode: "restartloop", Seed: c.Seed*1000 + 900 + int64(i), Prog: Program{Workers: []int{32, 32, 4, 32, 1, 32, 8, 32}[i%8], Cycles: c.Pick(5000, 20000)}, Src: "restart-loop"})
+	}
+	for i := 0; i < c.Pick(4, 16); i++ {
+		add(Job{Mode: "failsub", Seed: c.Seed*1000 + 950 + int64(i), Prog: Program{Workers: []int{2, 4, 1, 3}[i%4], Cycles: c.Pick(12, 40)}, Src: "failing-subscribe"})
 	}
 	// (hot group) one group is fed faster than a worker drains it while other groups keep the remaining
 	// workers busy: long uninterrupted runs of one work item (hundreds of callbacks) next to waiting work
